@@ -47,6 +47,13 @@ impl Program {
             if !in_domain_margin(st.op, &re, margin) {
                 return None;
             }
+            if matches!(st.op, Op::SphJ0 | Op::SphJ1 | Op::SphJ2) {
+                // sixth powers of the argument must be representable (see harness::bfs)
+                let lim = if u > 1e-10 { 1e6 } else { 1e50 };
+                if a[0].v.c.iter().any(|c| c.hi.abs() > lim) {
+                    return None;
+                }
+            }
             let mut r = apply_ref(st.op, &a, u);
             // composite interface functions: + propagated bound of their defining expression
             if let Some(x) = defining_bound(st.op, &a, u) {
